@@ -175,9 +175,11 @@ def purge (s : State) (c : Cls) (k : Id) : State :=
 /-- `CacheFactory.tryGet` -/
 def tryGet (s : State) (c : Cls) (k : Id) : Option Handle :=
   let f := s.fac c
+  let strongPart : Option Handle := if s.cfg.doCache then aget k f.strong else none
   match aget k f.weak with
-  | some h => if (s.obj h).dead then none else some h
-  | none => if s.cfg.doCache then aget k f.strong else none
+  | some h =>
+    if (s.obj h).dead then (if Extracted.Cache.tryGetFallsThrough then strongPart else none) else some h
+  | none => strongPart
 
 /-- `item.expire()` for one item of `getAll()` -/
 def expireOne (s : State) (h : Handle) : State :=
